@@ -15,6 +15,12 @@ CHECKS = {
         "The model is tied to the code on every run by differential execution (all 65536 inverses, ~80 full 65536-entry rows of Times and Div incl. constant/inverse pairs whose logs sum to 65535, Pow over exponent classes, 20k structured 64-bit polynomials); thorough sweeps all 2^32 pairs.",
    technique="Rocq proof: bilinearity + basis lifting + exp-homomorphism over 65535-entry table sweeps (vm_compute); differential correspondence check against extracted model",
    design="6/C08", note=NOTE + "Modelled, not verified: Go's uint16/uint64 arithmetic as written in Model/GF16.v."),
+ "C09": dict(
+   cat="proof",
+   text="Theorems (Props/C09.v, closed): for every constant, every even-length buffer and every path of the kernel model (portable Go loops, scalar assembly do-while loop with the element count the assembly computes, SSSE3 nibble-table block loop, Go dispatch incl. the 32-byte split and scalar tail) the output equals c*in[i] (xor out[i]) on LE 16-bit words, the loops' byte extents stay within the buffers, and mismatched lengths panic. "
+        "Tied to the code every run on all paths (hook switches SSSE3 off; 386 build reaches the !amd64 file): buffers end at / start after PROT_NONE pages, canaries at up to 64 alignments, lengths 0..130 and around 2^16 and 2^17, every 16-bit word value per path. Machine-level memory accesses of the assembly are observed, not proved.",
+   technique="Rocq proof: table decomposition by linearity of fmul + loop/dispatch index arithmetic; guard-page differential correspondence check on all dispatch paths",
+   design="6/C09", note=NOTE + "SSSE3 lane shuffles are modelled word-wise (each output word from the same-index input word); the byte permutations of STANDARD_TO_ALT/ALT_TO_STANDARD are covered by the differential check only."),
 }
 
 def main():
@@ -54,6 +60,6 @@ def main():
     }
     json.dump(m, open(os.path.join(HERE, "MANIFEST.json"), "w"), indent=1)
 
-HOOK_COMMITS = []
+HOOK_COMMITS = ['e2ca3fb']
 if __name__ == "__main__":
     main()
